@@ -137,7 +137,7 @@ def discharge(ob, tier='quick'):
     if ob.status == 'trivial':
         ob.backend = 'simplifier'
         return ob
-    scale = {'quick': 1, 'thorough': 4, 'retry': 3}.get(tier, 1)
+    scale = {'quick': 1, 'thorough': 4, 'retry': 2}.get(tier, 1)
     t0 = time.time()
     neg = z3.Not(ob.goal)
     full = Z3_TIMEOUT_MS * scale
@@ -184,7 +184,7 @@ def discharge(ob, tier='quick'):
         ob.detail = s.reason_unknown()
     # a retry additionally varies the solver's random seed: an `unknown` is a search that did not finish,
     # and a different search order over the same (sub)set of hypotheses is as sound as the first
-    for sub, seed in [(sub, seed) for seed in ((0, 11, 23) if tier == 'retry' else (0,)) for sub in subsets]:
+    for sub, seed in [(sub, seed) for seed in ((0, 11) if tier == 'retry' else (0,)) for sub in subsets]:
         s = _solver(max(quickto, full // 2), True, seed)
         for i in sub:
             s.add(ob.pc[i])
